@@ -423,7 +423,16 @@ def _emit_templates(fn: Function) -> List[Tuple[ast.AST, Template, str]]:
             line_vars.add(c.args[0].id)
     out = []
     for n in own_nodes(fn.node):
-        if not isinstance(n, ast.JoinedStr):
+        if isinstance(n, ast.BinOp) and isinstance(n.op, ast.Add):
+            # string concatenations are templates too (`"  # " + " ".join(...)`): the outermost `+` chain with a literal part
+            if isinstance(parent(n), ast.BinOp) and isinstance(parent(n).op, ast.Add):  # type: ignore[union-attr]
+                continue
+            if any(isinstance(x, ast.JoinedStr) for x in ast.walk(n)):
+                continue  # its f-string parts are examined on their own
+            t0 = template_of(n)
+            if t0 is None or not any(isinstance(p_, str) and p_ for p_ in t0.parts):
+                continue
+        elif not isinstance(n, ast.JoinedStr):
             continue
         par = parent(n)
         if isinstance(par, (ast.JoinedStr, ast.FormattedValue)):
@@ -478,8 +487,9 @@ def run(repo: Repo, rep: Report, tier: str) -> None:
                 for h, st, idx in holes:
                     n_holes += 1
                     by_ctx[st.kind] += 1
-                    if how not in ("line", "block"):
-                        continue  # text composition: judged where it finally lands (R15.2 / the enclosing template)
+                    if how not in ("line", "block") and st.kind != COMMENT:
+                        continue  # text composition: judged where it finally lands (R15.2 / the enclosing template) - except after a `#`
+                        # that the piece itself opens: whatever follows on that line is a comment wherever the piece lands
                     ft = ft or FnTaint(fn)
                     conv = t.convs.get(idx, -1)
                     if conv == ord("r"):
